@@ -4,6 +4,7 @@ from harness import common
 from harness.common import spec
 
 META = {
+    'tier_note': 'quick and thorough use the same (thorough) bounds for this property',
     'level': 'model_checking',
     'claim': 'Every primitive encoder, the table-value encoder and a cross-section of frame attributes are '
              'called with a symbolic value of a UNION of Python types (unbounded int, bool, str, float, None, '
@@ -226,6 +227,8 @@ def _u(name, body, bound, rep, timeout=200, typ=UNION, pre=None, family='union_v
 
 
 def partitions(tier, seed):
+    # the thorough bounds of this property exhaust in about a minute: the quick tier uses them too
+    tier = 'thorough'
     q = tier == 'quick'
     parts = []
     prims = [('octet', 'octet'), ('short_int', 'short_int'), ('short_uint', 'short_uint'), ('long_int', 'long_int'),
